@@ -557,6 +557,12 @@ func (fr *frame) applyContract(d *Decl, callee *ssa.Function, sig *types.Signatu
 			}
 		}
 	}
+	// the callee may allocate: values it leaves in memory or returns may be newer than anything allocated so far
+	if d.Has("allocates") || !d.Has("pure") {
+		nhw := vc.freshConst("hw", "Int")
+		vc.assume("(>= " + nhw + " " + st.hw + ")")
+		st.hw = nhw
+	}
 	// frame
 	items, specified, err := parseModifies(d)
 	if err != nil {
@@ -570,11 +576,6 @@ func (fr *frame) applyContract(d *Decl, callee *ssa.Function, sig *types.Signatu
 		}
 	} else {
 		fr.applyModifies(items, env, st, ctxFn)
-	}
-	if d.Has("allocates") || !d.Has("pure") {
-		nhw := vc.freshConst("hw", "Int")
-		vc.assume("(>= " + nhw + " " + st.hw + ")")
-		st.hw = nhw
 	}
 	// results
 	res := fr.freshResults(v, sig, st, g, hint, d.Kind == "func")
@@ -775,8 +776,12 @@ func (fr *frame) havocLoc(st *State, addr string, t types.Type) {
 		}
 		return
 	case *types.Map:
-		// the map object's content changes (the reference stays)
-		_ = u
+		// the content of the map object the location refers to may change as well as the reference
+		mc := vc.mapClass(t)
+		cur := vc.load(st, addr, t)
+		h := vc.heapOf(st, mc)
+		cont := vc.freshConst("mapcontent", vc.mapContentSort(u))
+		st.heap[mc] = vc.define(vc.fresh(mc), vc.classSortByName(mc), "(store "+h+" "+cur+" "+cont+")")
 	}
 	nv := vc.freshConst("hv", vc.sortOf(t))
 	for _, f := range fr.typeFacts(st, t, nv, true) {
